@@ -104,6 +104,8 @@ def run_cases(ctx, cases):
                 ctx.known.append(kd[0]["line"])
             if not kd:
                 ctx.violation("property", c[len(rxlib.F9_MARK):].strip(), {"input": line, "tx": tx.describe()})
+        elif c and rxlib.f11_known(ctx, "C01", tx, ev, [tx.H, b"NNNN"]):
+            stats["f11"] = stats.get("f11", 0) + 1
         elif c and f10_class(tx) and f10_shape(tx, ev, pm) and [k for k in vlib.load_known_findings("C01") if k.get("class") == "F10" and k.get("kind") == "known"]:
             stats["f10"] = stats.get("f10", 0) + 1
         elif c:
@@ -128,6 +130,7 @@ def run(ctx):
     stats = run_cases(ctx, cases)
     ctx.coverage["known_finding_F9_witness_reproduces"] = rxlib.run_f9_witness(ctx, "C01")
     ctx.coverage["known_finding_F10_witness_reproduces"] = run_f10_witness(ctx)
+    ctx.coverage["known_finding_F11_witness_reproduces"] = rxlib.run_f11_witness(ctx, "C01")
     # F10 is a loss RATE (about 1 transmission in 20 inside the class): far more than that is a different defect
     if stats.get("f10_class", 0) >= 20 and stats.get("f10", 0) > 0.25 * stats["f10_class"]:
         ctx.violation("property", "%d of %d transmissions inside the F10 input class lost bursts: far more than the characterised rate "
